@@ -143,13 +143,19 @@ impl Quantity {
             let quantity_base_unit_representation = (self.clone()
                 / Quantity::from_unit(common_unit_factors))
             .to_base_unit_representation();
-            let own_base_unit_representation = own_unit_reduced.to_base_unit_representation().0;
+            let (own_base_unit_representation, own_factor) =
+                own_unit_reduced.to_base_unit_representation();
 
             if own_base_unit_representation == target_base_unit_representation {
-                Ok(Quantity::new(
-                    *quantity_base_unit_representation.unsafe_value() / factor,
-                    target_unit.clone(),
-                ))
+                // Units of equal size (e.g. Hz and Bq, mGy and mSv): the value stays as it
+                // is. Going through the base unit representation would round it, and
+                // overflow for values close to the largest representable number.
+                let value = if own_factor.to_f64() == factor.to_f64() {
+                    self.value
+                } else {
+                    *quantity_base_unit_representation.unsafe_value() / factor
+                };
+                Ok(Quantity::new(value, target_unit.clone()))
             } else {
                 // TODO: can this even be triggered? replace by an assertion?
                 Err(QuantityError::IncompatibleUnits(
